@@ -9,7 +9,7 @@ from mirsym.models_coll import VecModel, ArcModel, MutexModel
 from mirsym import hlib
 from props.ops import UF, val64
 from props.end import SenderStub
-from props.start import exec_metadata
+from props.start import exec_metadata, start_harness, classify_start
 
 META = {
     'explanation': 'Iterations, sequential logic. IterationLeader::setup/next over the real Start with N IterationEnd '
@@ -263,8 +263,50 @@ def iteration_end_harness(w, rounds):
     return h
 
 
+def state_lock_harness(w):
+    lock = w.impls[(None, 'IterationStateLock')]['lock'][0]
+    unlock = w.impls[(None, 'IterationStateLock')]['unlock'][0]
+    wait = w.impls[(None, 'IterationStateLock')]['wait_for_update'][0]
+
+    def h(ex):
+        g0 = ex.fresh_int('usize', 'generation')
+        ex.assume(z3.ULT(g0.v, 1 << 40))
+        lk = hlib.mk_struct(w, 'IterationStateLock', generation=MutexModel(g0), cond_var=Opaque('Condvar'))
+        holder = [lk]
+        gen = lambda: holder[0].get('generation').slot[0]
+        op = ex.choose(3, 'operation')
+        if op == 0:
+            ex.call_function(lock, [Ref(holder, 0)])
+            check(ex, z3.And(z3.URem(gen().z(), 2) == 1, z3.UGE(gen().z(), g0.v), z3.ULE(gen().z(), g0.v + 1)),
+                  'lock() does not leave an odd generation one step ahead at most')
+        elif op == 1:
+            ex.assume(z3.URem(g0.v, 2) == 1)
+            ex.call_function(unlock, [Ref(holder, 0)])
+            check(ex, gen().z() == g0.v + 1, 'unlock() does not publish generation + 1')
+        else:
+            want = ex.fresh_int('usize', 'wanted')
+            ex.env['condvar_blocked'] = False
+            ex.call_function(wait, [Ref(holder, 0), want])
+            if not ex.env.get('condvar_blocked'):
+                check(ex, z3.UGE(g0.v, want.v), 'wait_for_update returned although the generation is older than requested')
+                hlib.cover(ex, 'wait_returned')
+        hlib.cover(ex, 'end')
+        return {'op': op, 'generation': repr(g0)}
+    return h
+
+
 def TASKS(tier):
+    from props.start import start_tasks
     ts = []
+    for t in start_tasks(tier, 'start_state_wait', progress=False):
+        if t.params['iters'] > 1 and not t.params.get('adaptive'):
+            t.params['lock'] = True
+            t.name += '_lock'
+            t.opts = dict(t.opts, covers=['waited_for_state'])
+            ts.append(t)
+    ts.append(Task('state_lock', 'state_lock_harness', {}, bounds='IterationStateLock::{lock,unlock,wait_for_update}: one '
+                   'call from an arbitrary generation (< 2^40), arbitrary requested generation', role='state_lock',
+                   opts={'covers': ['end', 'wait_returned']}))
     cfgs = [(2, 2, 2, 1), (1, 1, 3, 2), (3, 1, 2, 1)] if tier == 'quick' else \
         [(2, 2, 3, 2), (3, 2, 2, 2), (1, 1, 4, 2), (3, 3, 3, 1)]
     for ne, nf, mi, outer in cfgs:
